@@ -267,6 +267,160 @@ theorem lex_plain_rec (K : CharClass) (hK : K.isAlnum '%' = false) :
         exact cons_both (by plain_tok) (ih _ _) h
       rw [if_neg h18] at h; simp at h
 
+theorem cons_mono {t : Tok} {x y : Except LErr (List Tok × List Char)} {r : List Tok × List Char}
+    (hxy : ∀ r, x = .ok r → y = .ok r) (h : cons t x = .ok r) : cons t y = .ok r := by
+  obtain ⟨ts, rest, hx, rfl⟩ := cons_ok h
+  rw [hxy _ hx]; rfl
+
+theorem hyb_mono {K : CharClass} {o : HybOp} {pd : Bool} {cs : List Char}
+    {f g : List Char → Except LErr (List Tok × List Char)}
+    {r : List Tok × List Char} (hfg : ∀ cs r, f cs = .ok r → g cs = .ok r)
+    (h : (match collectVarDom K pd cs with
+          | some (v, d, rest') => cons (Tok.hyb o v d) (f rest')
+          | none => Except.error LErr.lex) = .ok r) :
+    (match collectVarDom K pd cs with
+          | some (v, d, rest') => cons (Tok.hyb o v d) (g rest')
+          | none => Except.error LErr.lex) = .ok r := by
+  cases hc : collectVarDom K pd cs with
+  | none => simp [hc] at h
+  | some p =>
+    obtain ⟨v, d, rest⟩ := p
+    simp only [hc] at h ⊢
+    exact cons_mono (hfg _) h
+
+/-- more fuel never changes a successful result -/
+theorem lexRec_mono1 (K : CharClass) (ext : Bool) :
+    ∀ n top cs r, lexRec K ext n top cs = .ok r → lexRec K ext (n + 1) top cs = .ok r := by
+  intro n
+  induction n with
+  | zero => intro top cs r h; simp [lexRec] at h
+  | succ n ih =>
+    intro top cs r h
+    cases cs with
+    | nil => simpa [lexRec] using h
+    | cons c cs =>
+      simp only [lexRec] at h ⊢
+      by_cases h1 : K.isWs c = true
+      · rw [if_pos h1] at h ⊢; exact ih _ _ _ h
+      rw [if_neg h1] at h ⊢
+      by_cases h2 : c = '~'
+      · rw [if_pos h2] at h ⊢; exact cons_mono (ih _ _) h
+      rw [if_neg h2] at h ⊢
+      by_cases h3 : c = '&'
+      · rw [if_pos h3] at h ⊢; exact cons_mono (ih _ _) h
+      rw [if_neg h3] at h ⊢
+      by_cases h4 : c = '|'
+      · rw [if_pos h4] at h ⊢; exact cons_mono (ih _ _) h
+      rw [if_neg h4] at h ⊢
+      by_cases h5 : c = '^'
+      · rw [if_pos h5] at h ⊢; exact cons_mono (ih _ _) h
+      rw [if_neg h5] at h ⊢
+      by_cases h6 : c = '='
+      · rw [if_pos h6] at h ⊢
+        split at h
+        · exact cons_mono (ih _ _) h
+        · simp at h
+      rw [if_neg h6] at h ⊢
+      by_cases h7 : c = '<'
+      · rw [if_pos h7] at h ⊢
+        split at h
+        · exact cons_mono (ih _ _) h
+        · simp at h
+      rw [if_neg h7] at h ⊢
+      by_cases h8 : c = '>'
+      · rw [if_pos h8] at h; simp at h
+      rw [if_neg h8] at h ⊢
+      by_cases h9 : ((decide (c = 'E') || decide (c = 'A')) && isTempOp cs.head?) = true
+      · rw [if_pos h9] at h ⊢
+        cases cs with
+        | nil => simp at h
+        | cons c2 cs' =>
+          cases cs' with
+          | nil =>
+            simp only at h ⊢
+            split at h
+            · exact cons_mono (ih _ _) h
+            · simp at h
+          | cons c3 tl =>
+            simp only at h ⊢
+            by_cases hn : isName K c3 = true
+            · rw [if_pos hn] at h ⊢; exact cons_mono (ih _ _) h
+            rw [if_neg hn] at h ⊢
+            split at h
+            · exact cons_mono (ih _ _) h
+            · simp at h
+      rw [if_neg h9] at h ⊢
+      by_cases h10 : c = '!'
+      · rw [if_pos h10] at h ⊢; exact hyb_mono (ih _) h
+      rw [if_neg h10] at h ⊢
+      generalize nextIsName K cs = b at h ⊢
+      by_cases h11 : (decide (c = '3') && !b) = true
+      · rw [if_pos h11] at h ⊢; exact hyb_mono (ih _) h
+      rw [if_neg h11] at h ⊢
+      by_cases h12 : (decide (c = 'V') && !b) = true
+      · rw [if_pos h12] at h ⊢; exact hyb_mono (ih _) h
+      rw [if_neg h12] at h ⊢
+      by_cases h13 : c = '@'
+      · rw [if_pos h13] at h ⊢
+        cases hc : collectVarDom K false cs with
+        | none => simp [hc] at h
+        | some p =>
+          obtain ⟨v, d, rest⟩ := p
+          simp only [hc] at h ⊢; exact cons_mono (ih _ _) h
+      rw [if_neg h13] at h ⊢
+      by_cases h14 : c = '\\'
+      · rw [if_pos h14] at h ⊢
+        cases ho : hybOfLong (collectName K cs).fst with
+        | none => simp [ho] at h
+        | some o =>
+          cases o with
+          | jump =>
+            simp only [ho] at h ⊢
+            cases hc : collectVarDom K false (collectName K cs).snd with
+            | none => simp [hc] at h
+            | some p =>
+          obtain ⟨v, d, rest⟩ := p
+          simp only [hc] at h ⊢; exact cons_mono (ih _ _) h
+          | bind => simp only [ho] at h ⊢; exact hyb_mono (ih _) h
+          | ex => simp only [ho] at h ⊢; exact hyb_mono (ih _) h
+          | all => simp only [ho] at h ⊢; exact hyb_mono (ih _) h
+      rw [if_neg h14] at h ⊢
+      by_cases h15 : c = ')'
+      · rw [if_pos h15] at h ⊢
+        exact h
+      rw [if_neg h15] at h ⊢
+      by_cases h16 : c = '('
+      · rw [if_pos h16] at h ⊢
+        cases hg : lexRec K ext n false cs with
+        | error e => simp [hg] at h
+        | ok p =>
+          obtain ⟨grp, rest⟩ := p
+          simp only [hg] at h
+          rw [ih _ _ _ hg]
+          exact cons_mono (ih _ _) h
+      rw [if_neg h16] at h ⊢
+      by_cases h17 : c = '{'
+      · rw [if_pos h17] at h ⊢
+        by_cases he : (collectName K cs).fst.isEmpty = true
+        · rw [if_pos he] at h; simp at h
+        rw [if_neg he] at h ⊢
+        cases hx : expect '}' (collectName K cs).snd with
+        | none => simp [hx] at h
+        | some rest' => simp only [hx] at h ⊢; exact cons_mono (ih _ _) h
+      rw [if_neg h17] at h ⊢
+      by_cases h18 : (decide (c = '%') && ext) = true
+      · rw [if_pos h18] at h ⊢
+        by_cases he : (collectName K cs).fst.isEmpty = true
+        · rw [if_pos he] at h; simp at h
+        rw [if_neg he] at h ⊢
+        cases hx : expect '%' (collectName K cs).snd with
+        | none => simp [hx] at h
+        | some rest' => simp only [hx] at h ⊢; exact cons_mono (ih _ _) h
+      rw [if_neg h18] at h ⊢
+      by_cases h19 : isName K c = true
+      · rw [if_pos h19] at h ⊢; exact cons_mono (ih _ _) h
+      rw [if_neg h19] at h; simp at h
+
 /-- character-class facts about Rust's `char::is_alphanumeric` the lexer theorems rely on
 (the correspondence harness sends the class of these characters with every run) -/
 structure CharOK (K : CharClass) : Prop where
